@@ -22,13 +22,14 @@ func init() {
 	register(&Property{
 		ID:        "C35",
 		Title:     "Mark-bit allocation is collision-free and reversible",
-		Technique: "static analysis: lock/advance pairing on the allocator (E-LOCK/E-PAIR), guard analysis of the bit arithmetic (E-GUARD), provenance of the marks handed to rules.Config (E-FLOW) on go/ssa",
+		Technique: "static analysis: lock/advance pairing on the allocator (E-LOCK/E-PAIR), guard analysis of the bit arithmetic (E-GUARD), provenance of the marks handed to rules.Config (E-FLOW), per-iteration path enumeration of the mask-walking loops (E-TWIN) on go/ssa",
 		DesignRef: "DESIGN.md §3 C35",
 		Explanation: "Structural clauses only (the mask arithmetic itself is not decided): (advance) NextSingleBitMark takes the manager's mutex before it reads the allocation counter and releases it by defer; the mark it returns is nthMark(counter); every return of a mark is preceded by counter+1, and a failed allocation returns mark 0. " +
 			"(inmask) every non-zero value nthMark returns is `1<<shift` and is only returned under `mask & value > 0`; every bit MapNumberToMark ORs into its result is `1<<shift` under the same mask test; MapMarkToNumber only succeeds under `mark & mask == mark`. " +
 			"(sites) in StartDataplaneDriver every single-bit mark stored into rules.Config (accept, pass, drop, scratch0, scratch1, wireguard) is the result of its own NextSingleBitMark call on one manager (or the zero default for the optional wireguard mark), MarkEndpoint comes from NextBlockBitsMark on the same manager, and the Config literal is only reached when a mark allocated at or after each required mark has been tested non-zero (allocation fails monotonically, so a later success implies the earlier ones). " +
-			"(maskonly) MapNumberToMark, MapMarkToNumber and nthMark, and everything they call in the package, load no field of the manager that is mutated outside the constructor literal (the allocation counters): the mapping is a function of the mask alone, hence the same after any allocation sequence.",
-		NotDecided: "That the n-th set bit is computed correctly, that numbers round-trip through MapNumberToMark/MapMarkToNumber (arithmetic over run-time values); exhaustion behaviour of NextBlockBitsMark beyond what NextSingleBitMark gives it; marks used by the BPF dataplane.",
+			"(maskonly) MapNumberToMark, MapMarkToNumber and nthMark, and everything they call in the package, load no field of the manager that is mutated outside the constructor literal (the allocation counters): the mapping is a function of the mask alone, hence the same after any allocation sequence. " +
+			"(rank) in every loop of the package that tests `mask & (1<<shift)` (constructor count, nthMark, MapNumberToMark, MapMarkToNumber) the loop-carried rank counter starts at 0 and, on every path through one iteration, advances by exactly one iff that path established `mask & bit != 0` — so its advance is control-dependent on the mask test only, never on the number/mark being converted, and the encoder and the decoder give each mask bit the same rank.",
+		NotDecided: "That the n-th set bit is computed correctly, that numbers round-trip through MapNumberToMark/MapMarkToNumber (arithmetic over run-time values; only the shared rank discipline of the two walks is decided, not the weight 1<<rank each applies); exhaustion behaviour of NextBlockBitsMark beyond what NextSingleBitMark gives it; marks used by the BPF dataplane.",
 		Assumptions: []string{
 			"go/types + go/ssa (x/tools v0.50.0) model of the current source, CGO_ENABLED=0 build",
 			"logrus Panic* does not return",
@@ -54,6 +55,12 @@ func init() {
 				Old: "\tnumber := uint32(n)\n\tmark := uint32(0)\n", New: "\tif n > 0 && n >= mc.CurrentFreeNumberOfMark() {\n\t\treturn 0, errors.New(\"not enough mark bits available\")\n\t}\n\tnumber := uint32(n)\n\tmark := uint32(0)\n", Expect: "C35.maskonly/MarkBitsManager.MapNumberToMark"},
 			{Name: "MapMarkToNumber refuses every mark once the mask is exhausted", File: c35File,
 				Old: "\tif mark&mc.mask != mark {\n", New: "\tif mark&mc.mask != mark || mc.numFreeBits == 0 {\n", Expect: "C35.maskonly/MarkBitsManager.MapMarkToNumber"},
+			{Name: "MapMarkToNumber advances the rank only for bits set in the mark", File: c35File,
+				Old: "\t\tif mc.mask&bit > 0 {\n\t\t\tif bit&mark > 0 {\n\t\t\t\tnumber += int(uint32(1) << numBitsFound)\n\t\t\t}\n\t\t\tnumBitsFound++\n\t\t}\n", New: "\t\tif mc.mask&bit > 0 && bit&mark > 0 {\n\t\t\tnumber += int(uint32(1) << numBitsFound)\n\t\t\tnumBitsFound++\n\t\t}\n", Expect: "C35.rank/MarkBitsManager.MapMarkToNumber"},
+			{Name: "MapNumberToMark advances the rank only for bits set in the number", File: c35File,
+				Old: "\t\t\t\tnumber -= value\n\t\t\t}\n\t\t\tnumBitsFound++\n", New: "\t\t\t\tnumber -= value\n\t\t\t\tnumBitsFound++\n\t\t\t}\n", Expect: "C35.rank/MarkBitsManager.MapNumberToMark"},
+			{Name: "nthMark counts every bit position, not only the mask's", File: c35File,
+				Old: "\t\t\t\treturn candidate, nil\n\t\t\t}\n\t\t\tnumBitsFound++\n\t\t}\n", New: "\t\t\t\treturn candidate, nil\n\t\t\t}\n\t\t}\n\t\tnumBitsFound++\n", Expect: "C35.rank/MarkBitsManager.nthMark"},
 			{Name: "drop mark reuses the pass mark's allocation", File: c35DpFile,
 				Old: "\t\tmarkDrop, _ := markBitsManager.NextSingleBitMark()\n", New: "\t\tmarkDrop := markPass\n", Expect: "C35.sites/MarkDrop"},
 			{Name: "exhaustion check no longer covers the last scratch bit", File: c35DpFile,
@@ -70,10 +77,183 @@ func runC35(c *Ctx) {
 
 	c.Rule("C35.maskonly", "E-EFFECT", "the number<->mark mapping functions (and nthMark) are functions of the mask alone: neither they nor anything they call reads a field of the manager that the allocator mutates", 3)
 
+	c.Rule("C35.rank", "E-TWIN/E-PATH", "every loop that ranks the bits of the mask (constructor count, nthMark, MapNumberToMark, MapMarkToNumber) starts its rank counter at 0 and advances it by exactly one on every iteration whose shift position is in the mask and on no other — independent of the number/mark being converted — so encoder and decoder give the same mask bit the same rank", 4)
+
 	c35Advance(c, p)
 	c35InMask(c, p)
 	c35Sites(c, p)
 	c35MaskOnly(c, p)
+	c35Rank(c, p)
+}
+
+// c35Rank: MapNumberToMark and MapMarkToNumber are inverse only because both
+// give the i-th set bit of the mask the weight 1<<i, and NextSingleBitMark hands
+// out distinct bits only because nthMark numbers the mask's bits 0,1,2,….  All of
+// them (and the constructor's count of available bits) keep that rank in a
+// loop-carried counter next to the shift position.  Necessary for any of this:
+// over one iteration of the loop the counter moves by exactly one if the shift
+// position is a mask bit and not at all otherwise.  In particular the advance
+// must not additionally depend on the value being encoded/decoded (a counter
+// that only advances for bits set in the mark ranks the mark's bits, not the
+// mask's) nor happen for positions outside the mask.
+//
+// Decided per loop by enumerating the (few) paths through one iteration and
+// resolving, along each path, what the counter's header phi receives on the back
+// edge.  A counter is any loop-carried integer, other than the shift position,
+// that every iteration leaves unchanged or advances by constant 1s.
+func c35Rank(c *Ctx, p *Prog) {
+	next := p.Func(c35Pkg, "MarkBitsManager.NextSingleBitMark")
+	nth := p.Func(c35Pkg, "MarkBitsManager.nthMark")
+	if next == nil || nth == nil {
+		c.Lost("MarkBitsManager.NextSingleBitMark / nthMark")
+	}
+	m := c35Fields(c, p, next, nth)
+	sp := p.SSAPkg(c35Pkg)
+	if sp == nil {
+		c.Lost("ssa package %s", c35Pkg)
+	}
+	var fns []*ssa.Function
+	for _, fn := range p.AllFuncs() {
+		if fn.Pkg == sp && fn.Blocks != nil {
+			fns = append(fns, fn)
+		}
+	}
+	sort.Slice(fns, func(i, j int) bool { return fnName(fns[i]) < fnName(fns[j]) })
+	found := map[string]int{}
+	for _, fn := range fns {
+		// the mask as seen by fn: the manager's field, or (constructor) the parameter stored into it
+		maskParams := map[ssa.Value]bool{}
+		for _, b := range fn.Blocks {
+			for _, in := range b.Instrs {
+				if st, ok := in.(*ssa.Store); ok {
+					if _, isFA := st.Addr.(*ssa.FieldAddr); isFA && fieldVar(st.Addr) == m.mask {
+						if par, ok := st.Val.(*ssa.Parameter); ok {
+							maskParams[par] = true
+						}
+					}
+				}
+			}
+		}
+		isMask := func(v ssa.Value) bool { return fieldVar(v) == m.mask || maskParams[v] }
+		// loops that test mask & (1<<shift): keyed by the shift's header phi
+		var shifts []*ssa.Phi
+		seen := map[*ssa.Phi]bool{}
+		for _, b := range fn.Blocks {
+			ifi, ok := b.Instrs[len(b.Instrs)-1].(*ssa.If)
+			if !ok {
+				continue
+			}
+			for _, pol := range []bool{true, false} {
+				cnd, pl := stripNot(ifi.Cond, pol)
+				if s := c35MaskBitEdge(isMask, cnd, pl); s != nil && !seen[s] {
+					seen[s] = true
+					shifts = append(shifts, s)
+				}
+			}
+		}
+		name := fnName(fn)
+		for _, shift := range shifts {
+			header := shift.Block()
+			cycles, nested, overflow := c35Cycles(header, 512)
+			if nested || overflow || len(cycles) == 0 {
+				c.Undecided("C35.rank/"+name, p.Pos(shift.Pos()), "the loop over the mask's bit positions has an inner loop or too many paths (%d) to enumerate", len(cycles))
+				found[name]++
+				continue
+			}
+			inMask := func(cond ssa.Value, pol bool) bool { return c35MaskBitEdge(isMask, cond, pol) == shift }
+			latches := map[*ssa.BasicBlock]bool{}
+			for _, cy := range cycles {
+				latches[cy[len(cy)-1]] = true
+			}
+			for _, in := range header.Instrs {
+				h, ok := in.(*ssa.Phi)
+				if !ok {
+					break
+				}
+				if h == shift {
+					continue
+				}
+				if b, ok := h.Type().Underlying().(*types.Basic); !ok || b.Info()&types.IsInteger == 0 {
+					continue
+				}
+				// a counter: every iteration leaves it alone or adds constant 1s, and some iteration adds
+				counter, moves := true, false
+				ks := make([]int, len(cycles))
+				for i, cy := range cycles {
+					k, ok := cy.steps(h)
+					if !ok {
+						counter = false
+						break
+					}
+					ks[i] = k
+					moves = moves || k > 0
+				}
+				if !counter || !moves {
+					continue
+				}
+				found[name]++
+				key := "C35.rank/" + name
+				if found[name] > 1 {
+					key = fmt.Sprintf("%s/#%d", key, found[name])
+				}
+				var bad []string
+				for i, cy := range cycles {
+					want := 0
+					if cy.crosses(inMask) {
+						want = 1
+					}
+					if ks[i] == want {
+						continue
+					}
+					via := p.Pos(cy[len(cy)-1].Instrs[0].Pos())
+					switch {
+					case want == 1 && ks[i] == 0:
+						bad = append(bad, fmt.Sprintf("an iteration whose position is in the mask can reach the next one (via %s) without advancing the rank counter: its advance depends on more than `%s & bit != 0`, so later mask bits get the rank of earlier ones", via, m.mask.Name()))
+					case want == 0:
+						bad = append(bad, fmt.Sprintf("the rank counter advances by %d on an iteration (via %s) that did not establish `%s & bit != 0`: positions outside the mask are ranked", ks[i], via, m.mask.Name()))
+					default:
+						bad = append(bad, fmt.Sprintf("the rank counter advances by %d in one iteration (via %s)", ks[i], via))
+					}
+				}
+				for i, pr := range header.Preds {
+					if !latches[pr] && !c35IsZero(h.Edges[i]) {
+						bad = append(bad, fmt.Sprintf("the rank counter starts at %s, not 0", path(h.Edges[i])))
+					}
+				}
+				sort.Strings(bad)
+				detail := ""
+				if len(bad) > 0 {
+					detail = name + ": " + bad[0]
+					if len(bad) > 1 {
+						detail += fmt.Sprintf(" (+%d more path(s))", len(bad)-1)
+					}
+					detail += "; the sibling loops rank every mask bit, so number->mark->number is no longer the identity / allocated bits are no longer the mask's bits in order"
+				}
+				c.Check(len(bad) == 0, key, p.Pos(h.Pos()), fmt.Sprintf("rank counter starts at 0 and moves by exactly 1 on the %d of %d iteration paths that pass the mask test, by 0 on the others", c35CountCross(cycles, inMask), len(cycles)), detail)
+			}
+		}
+	}
+	// the three rank-based functions must have been recognised (a loop without a counter is a
+	// constant rank: SSA folds an unadvanced counter away)
+	for _, n := range []string{"MarkBitsManager.nthMark", "MarkBitsManager.MapNumberToMark", "MarkBitsManager.MapMarkToNumber"} {
+		fn := p.Func(c35Pkg, n)
+		if fn == nil {
+			c.Lost("%s", n)
+		}
+		if found[fnName(fn)] == 0 {
+			c.Violate("C35.rank/"+fnName(fn), p.Pos(fn.Pos()), "%s has no loop over the mask's bit positions with a rank counter that advances per mask bit (counter never advanced, or the function no longer walks the mask like its siblings)", fnName(fn))
+		}
+	}
+}
+
+func c35CountCross(cycles []c35Cycle, pred EdgePred) int {
+	n := 0
+	for _, cy := range cycles {
+		if cy.crosses(pred) {
+			n++
+		}
+	}
+	return n
 }
 
 // c35MaskOnly: "every number that fits the mask maps to a mark and back" is
